@@ -600,7 +600,6 @@ func main() {
 		panic(err)
 	}
 	defer os.RemoveAll(root)
-
 	n := fl.Count(22, 300)
 	distinct := map[string]bool{}
 	emit := func(id int, name string, cfg sysCfg, fast bool, x *runner) {
@@ -683,6 +682,25 @@ func main() {
 	wg.Wait()
 	for id, j := range jobs {
 		emit(id, j.name, j.cfg, j.fast, j.x)
+	}
+	// Go-side scenario (chunk snapshots are not modelled in Coq)
+	{
+		id := n
+		viol, tr, err := snapshotScenario(root)
+		shape := "ok"
+		var errs []string
+		if err != nil {
+			shape = "harness-error"
+			errs = []string{err.Error()}
+			meta.GoViol = append(meta.GoViol, gallina.GoViolation{ID: fmt.Sprint(id), Shape: shape, What: err.Error()})
+		} else if viol != "" {
+			shape = "fast-startup-stale-state-file-lowers-lastSeriesID-below-snapshot"
+			meta.GoViol = append(meta.GoViol, gallina.GoViolation{ID: fmt.Sprint(id), Shape: shape, What: viol})
+		}
+		meta.Case(id, desc{Shape: shape, Corpus: "snapshot-stale-state-file (Go-side)", Cfg: sysCfg{SamplesPerChunk: 3, Snapshot: true}, Fast0: true, Trace: tr, Errs: errs})
+		meta.Evaluations++
+		meta.Hit("snapshot-scenario")
+		meta.Hit("shape:" + shape)
 	}
 	cf.Flush()
 	meta.Write(fl.Out)
